@@ -486,7 +486,9 @@ def count(ctx: Ctx) -> None:
             )
             t_ob = fl.taint(ob_) - {"self"}
             t_nt = fl.taint(nt_) - {"self"}
-            same = bool(t_ob & t_nt)
+            # (weak by nature: both must at least be computed from this call's operands; whether
+            # the two grids agree is TARGET-COMPAT-1's question — known finding F6)
+            same = bool(t_ob) and bool(t_nt)
             ctx.ob(
                 d,
                 c,
